@@ -517,3 +517,148 @@ func C05_LocalTypes() {
 	verif.Assert(c15LocalA(w) == w, "first type again")
 	verif.Reach("checked")
 }
+
+type Opt struct {
+	Level int
+	Mode  string
+}
+
+type Extra struct {
+	Mode string
+}
+
+type Reco struct {
+	Name    string
+	Port    int
+	Weight  float64
+	Enabled bool
+	Opt     Opt
+	Extra   Extra
+}
+
+// C05_EmptyNested: records whose nested blocks are empty in one place and
+// populated in another (same parent, next record, either order); a digit of
+// the text is symbolic. Every record gets its own values and nothing else.
+func C05_EmptyNested() {
+	d := verif.Bytes("digit", 1)
+	verif.Assume(d[0] >= '0' && d[0] <= '9')
+	lvl := int(d[0] - '0')
+	full := "def opt {\n level = " + string(d) + "\n}\n"
+	empty := "def opt {\n}\n"
+	extraFull := "def extra {\n mode = \"m\"\n}\n"
+	extraEmpty := "def extra {\n}\n"
+	var src string
+	var want []Reco
+	switch verif.Choice("case", 5) {
+	case 0: // empty, then populated in the next record
+		src = "def reco \"a\" {\n" + empty + "}\ndef reco \"b\" {\n" + full + "}\n"
+		want = []Reco{{Name: "a"}, {Name: "b", Opt: Opt{Level: lvl}}}
+	case 1: // populated, then empty
+		src = "def reco \"a\" {\n" + full + "}\ndef reco \"b\" {\n" + empty + "}\n"
+		want = []Reco{{Name: "a", Opt: Opt{Level: lvl}}, {Name: "b"}}
+	case 2: // empty sibling followed by a populated sibling of another type
+		src = "def reco \"a\" {\n" + empty + extraFull + "}\n"
+		want = []Reco{{Name: "a", Extra: Extra{Mode: "m"}}}
+	case 3: // three records, the middle one empty everywhere
+		src = "def reco \"a\" {\n" + full + extraFull + "}\ndef reco \"b\" {\n" + empty + extraEmpty + "}\ndef reco \"c\" {\n" + extraFull + full + "}\n"
+		want = []Reco{{Name: "a", Opt: Opt{Level: lvl}, Extra: Extra{Mode: "m"}}, {Name: "b"}, {Name: "c", Opt: Opt{Level: lvl}, Extra: Extra{Mode: "m"}}}
+	case 4: // an empty record, then one with fields; empty nested in between
+		src = "def reco \"a\" {\n}\ndef reco \"b\" {\n port = 8" + string(d) + "\n" + extraEmpty + full + "}\n"
+		want = []Reco{{Name: "a"}, {Name: "b", Port: 80 + lvl, Opt: Opt{Level: lvl}}}
+	}
+	src += "bind reco:all -> slice\n"
+	var got []Reco
+	out, log := &symio.Writer{}, &symio.Writer{}
+	err := bcl.Unmarshal([]byte(src), &got, bcl.OptOutput(out), bcl.OptLogger(log))
+	verif.Observe("err", err)
+	verif.Assert(err == nil, "unmarshal succeeds")
+	verif.Assert(len(got) == len(want), "one element per record")
+	if len(got) == len(want) {
+		for i := range got {
+			verif.Assert(got[i] == want[i], "record reproduced, nothing else set")
+		}
+	}
+	verif.Reach("checked")
+}
+
+// C05_Reload: Unmarshal into a slice that already holds records (several
+// length/capacity combinations, data also in the spare capacity): the result
+// is exactly the configuration's records; fields a record does not mention
+// are zero, whatever the target held before.
+func C05_Reload() {
+	d := verif.Bytes("digit", 1)
+	verif.Assume(d[0] >= '0' && d[0] <= '9')
+	old := Reco{Name: "old", Port: 1, Weight: 1.5, Enabled: true, Opt: Opt{9, "x"}, Extra: Extra{"y"}}
+	var got []Reco
+	switch verif.Choice("target", 5) {
+	case 0:
+		got = nil
+	case 1:
+		got = []Reco{old, old, old, old}[:3]
+	case 2:
+		got = []Reco{old, old, old, old}[:1]
+	case 3:
+		got = []Reco{old, old}
+	case 4:
+		got = []Reco{old}
+	}
+	src := "def reco \"a\" {\n port = 8" + string(d) + "\n}\ndef reco \"b\" {\n def opt {\n mode = \"m\"\n }\n}\n"
+	want := []Reco{{Name: "a", Port: 80 + int(d[0]-'0')}, {Name: "b", Opt: Opt{Mode: "m"}}}
+	if verif.Choice("third", 2) == 1 {
+		src += "def reco \"c\" {\n enabled = false\n}\n"
+		want = append(want, Reco{Name: "c"})
+	}
+	src += "bind reco:all -> slice\n"
+	out, log := &symio.Writer{}, &symio.Writer{}
+	err := bcl.Unmarshal([]byte(src), &got, bcl.OptOutput(out), bcl.OptLogger(log))
+	verif.Observe("err", err)
+	verif.Assert(err == nil, "unmarshal succeeds")
+	verif.Assert(len(got) == len(want), "exactly the configuration's records")
+	if len(got) == len(want) {
+		for i := range got {
+			verif.Assert(got[i] == want[i], "record reproduced, nothing left over from the target")
+		}
+	}
+	// a struct target that held data: mentioned fields replaced
+	one := old
+	err = bcl.Unmarshal([]byte("def reco \"z\" {\n port = 7\n}\nbind reco -> struct\n"), &one, bcl.OptOutput(out), bcl.OptLogger(log))
+	verif.Assert(err == nil && one.Name == "z" && one.Port == 7, "struct target rebound")
+	verif.Reach("checked")
+}
+
+type TSwap struct {
+	Name    string
+	Host    string `bcl:"address"`
+	Address string
+}
+
+type TSwap2 struct {
+	Left  int `bcl:"right"`
+	Right int `bcl:"left"`
+	Mid   int
+}
+
+type TSwap3 struct {
+	Address string
+	Host    string `bcl:"address"`
+}
+
+// C05_TagVsName: a bcl tag that spells another field's name: the tag wins for
+// that exact key, in either declaration order; values symbolic.
+func C05_TagVsName() {
+	h := verif.String("h", 1)
+	a, b, m := verif.Int("a"), verif.Int("b"), verif.Int("m")
+	var s1 TSwap
+	err := bcl.Bind(&s1, bcl.StructBinding{Value: bcl.Block{Type: "tswap", Name: "n", Fields: map[string]any{"address": h}}})
+	verif.Observe("err1", err)
+	verif.Assert(err == nil && s1.Host == h && s1.Address == "" && s1.Name == "n", "tagged field receives the tag's key")
+	var s3 TSwap3
+	err = bcl.Bind(&s3, bcl.StructBinding{Value: bcl.Block{Type: "tswap3", Fields: map[string]any{"address": h}}})
+	verif.Observe("err3", err)
+	verif.Assert(err == nil && s3.Host == h && s3.Address == "", "tagged field receives the tag's key (declared after the namesake)")
+	var s2 TSwap2
+	err = bcl.Bind(&s2, bcl.StructBinding{Value: bcl.Block{Type: "tswap2", Fields: map[string]any{"left": a, "right": b, "mid": m}}})
+	verif.Observe("err2", err)
+	verif.Assert(err == nil && s2.Left == b && s2.Right == a && s2.Mid == m, "crossed tags bind by tag")
+	verif.Reach("checked")
+}
